@@ -162,7 +162,7 @@ def h_two(ctx, plan, ncalls):
     sk.accepted = []; sk.calls = 0; sk.maxcalls = ncalls
   nround = [0]
   class Sel:
-    def __init__(self, rounds, everything): self.n = 0; self.rounds = rounds; self.everything = everything
+    def __init__(self, rounds, everything, exc_a=False): self.n = 0; self.rounds = rounds; self.everything = everything; self.exc_a = exc_a
     def select(self, r, w, x, timeout=None):
       self.n += 1
       if self.n > self.rounds:
@@ -171,17 +171,20 @@ def h_two(ctx, plan, ncalls):
       w = list(w)
       if any(c.fileno() < 0 for c in list(r) + w + list(x) if hasattr(c, 'fileno')): raise ValueError("file descriptor cannot be a negative integer (-1)")      # as select.select does
       if self.everything: return [], w, []
+      if self.exc_a:
+        # select reports an exceptional condition on connection A (and nothing else) in this round
+        return [], [], [c for c in x if c is cons['a']]
       nround[0] += 1
       return [], [c for c in w if bool(ctx.bool('writable_%s_%d' % ('a' if c is cons['a'] else 'b', nround[0])))], []
     def __getattr__(self, n):
       import select as _s
       return getattr(_s, n)
-  def flush(rounds, everything=False):
-    of01.select = Sel(rounds, everything)
+  def flush(rounds, everything=False, exc_a=False):
+    of01.select = Sel(rounds, everything, exc_a)
     core.running = True
     try: ds.run()
     finally: core.running = True
-  cnt = {'a': 0, 'b': 0}; lost = set()
+  cnt = {'a': 0, 'b': 0}; lost = set(); given_up = []
   def check(quiescent):
     for t in 'ab':
       got = _concat(ctx, socks[t].accepted); exp = _concat(ctx, queued[t])
@@ -194,6 +197,14 @@ def h_two(ctx, plan, ncalls):
       m = ctx.bytes('m%s%d' % (op, cnt[op]), 8 + 2 * cnt[op]); cnt[op] += 1
       if not cons[op].disconnected: queued[op].append(m)
       cons[op].send(m)
+    elif op == 'e':
+      # an exceptional condition on connection A while it may have data backed up: whatever the sender drops for it, the connection must not go on
+      # as if nothing had happened (a stream with a hole in it) - it is given up: disconnected, nothing further written to it
+      had = cons['a'] in ds._dataForConnection
+      flush(1, exc_a=True)
+      if had: ctx.witness('exceptional-with-backlog')
+      if cons['a'].disconnected:          # given up: then nothing more is written to it; otherwise its stream has to stay whole (the clauses below)
+        lost.add('a'); given_up.append(len(socks['a'].accepted))
     elif op == 'x':
       # connection A is lost on the read side (the OpenFlow task closes it) while it may still have data backed up in the deferred sender
       cons['a'].close(); lost.add('a'); ctx.witness('lost-with-backlog' if cons['a'] in ds._dataForConnection else 'lost')
@@ -203,6 +214,7 @@ def h_two(ctx, plan, ncalls):
   flush(len(plan) * 3 + 2 * ncalls + 2, everything=True)
   check(True)
   for t in 'ab': ctx.check('connection %s: nothing written after a fatal error' % t.upper(), socks[t].after_fatal == 0)
+  if given_up: ctx.check('connection A: nothing written after it was given up', len(socks['a'].accepted) == given_up[0])
   if socks['a'].fatal or socks['b'].fatal: ctx.witness('fatal')
   else:
     ctx.witness('clean')
@@ -482,7 +494,7 @@ def obligations(tier):
                desc='Connection.send (cooperative thread) against the real DeferredSender.run loop (its own thread), interleaved at statement granularity: stream preserved'),
     Obligation('O7_loop_iteration', h_loop_iteration, [dict(nq=6)], witnesses=('receive-side loss', 'alive'),
                desc='one round of the real I/O loop with a worker both readable and writable: no write after a fatal receive outcome'),
-    Obligation('O4_two_connections', h_two, [dict(plan=p, ncalls=3) for p in (['abfb', 'abfab', 'bafa', 'abxfb', 'abxb'] + (['abffba', 'aabfb'] if thorough else []))], witnesses=('clean',),
+    Obligation('O4_two_connections', h_two, [dict(plan=p, ncalls=3) for p in (['abfb', 'abfab', 'bafa', 'abxfb', 'abxb', 'abeab'] + (['abffba', 'aabfb'] if thorough else []))], witnesses=('clean',),
                max_decisions=20000, desc='two connections behind the one DeferredSender, symbolic writable subsets per flush round: each connection keeps its own stream order'),
     Obligation('O1_controller', h_controller, [dict(nmsgs=p.count('s'), ncalls=nc, plan=p) for p in cplans], witnesses=('fatal', 'clean'),
                max_decisions=20000, desc='Connection.send + DeferredSender: accepted stream == queued stream; no write after fatal error; one ConnectionDown'),
